@@ -276,6 +276,10 @@ def run(case):
         zmax = float(rng.choice([12.0, 60.0, 160.0]))
         pos = np.stack([rng.uniform(shape[0], shape[0] + zmax, nm), rng.uniform(0, yx[0] - 1, nm),
                         rng.uniform(0, yx[1] - 1, nm)], axis=1)
+        if rng.random() < 0.4:
+            # a molecule whose box straddles z = 0: the planes below are clipped, in 2-D as in 3-D
+            pos[0, 0] = rng.uniform(-shape[0] / 3, shape[0] / 3)
+            case.count("proj_z_straddling")
         R = Rotation.from_quat(np.stack([gen.random_rotation(rng).as_quat() for _ in range(nm)]))
         sim = TomogramSimulator(order=order, scale=scale).add_molecules(Molecules(pos * scale, R), _comp(rng, tmpl, scale, case))
         Z = int(np.ceil(pos[:, 0].max() + sum(shape))) + 2
@@ -296,4 +300,14 @@ def run(case):
         case.decided += proj.size // 4
         case.check(e <= TOLERANCES["proj_rel"], "simulate_2d != z-projection of simulate", mech, err=e,
                    mass_ratio=ratio, nmol=nm, order=order)
+        # a component that is replaced after a first simulation: the next simulation shows the new component
+        tmpl_n = gen.render_box(shape, gen.make_blobs(rng, shape, sigma=sig, margin=marg))
+        comp_name = list(sim._components.keys())[0] if hasattr(sim, "_components") else None
+        if comp_name is not None:
+            pos_n = pos[::-1].copy()
+            sim.add_molecules(Molecules(pos_n * scale, R), tmpl_n, name=comp_name, overwrite=True)
+            v3n = sim.simulate((Z,) + yx)
+            fresh = TomogramSimulator(order=order, scale=scale).add_molecules(Molecules(pos_n * scale, R), tmpl_n).simulate((Z,) + yx)
+            en = float(np.abs(v3n - fresh).max()) / max(float(np.abs(fresh).max()), 1e-12)
+            case.check(en <= 1e-5, "simulation after overwriting a component still shows the old component", None, err=en)
         return
